@@ -14,6 +14,7 @@ pub fn account_run(acc: &mut Acc, res: &RunResult) {
     acc.points += res.points;
     acc.max_depth = acc.max_depth.max(res.decisions.len() as u64);
     acc.timer_fires += res.timer_fires;
+    acc.count("max_steps_in_one_execution (the engine ends an execution as a livelock at 2000000, magnitude families raise that)", res.steps);
     acc.leaked_threads += res.leaked_threads as u64;
     if res.conflicts > 0 {
         acc.conflicting_execs += 1;
